@@ -228,7 +228,7 @@ var _ = token.EQL
 // ---------------------------------------------------------------- LOOP.BACKSCAN
 
 func init() {
-	register(&Rule{Name: "LOOP.BACKSCAN", Props: []string{"C02"}, Floor: 1,
+	register(&Rule{Name: "LOOP.BACKSCAN", Props: []string{"C02"}, Floor: 0,
 		Doc: "a scan that runs backwards over a text, stepping the index down before it reads (`for i := len(s); i > K; { i--; … s[i] … }`), goes down to the first byte: K is 0",
 		Run: ruleLoopBackscan})
 }
@@ -275,8 +275,51 @@ func ruleLoopBackscan(c *Ctx) []Obligation {
 				}
 			}
 			if text == nil {
+				// the other spelling: `for i := len(s)-1; i >= K; i--` reads at the index itself
+				var text2 ssa.Value
+				for i, e := range phi.Edges {
+					if b.Dominates(b.Preds[i]) {
+						continue
+					}
+					if d, isD := e.(*ssa.BinOp); isD && d.Op == token.SUB {
+						if one, is1 := constInt(d.Y); is1 && one == 1 {
+							if call, isC := d.X.(*ssa.Call); isC {
+								if bi, isBi := call.Call.Value.(*ssa.Builtin); isBi && bi.Name() == "len" && len(call.Call.Args) == 1 {
+									text2 = call.Call.Args[0]
+								}
+							}
+						}
+					}
+				}
+				if text2 == nil {
+					continue
+				}
+				reads := false
+				for _, r := range refsOf(phi) {
+					switch x := r.(type) {
+					case *ssa.IndexAddr:
+						reads = reads || sameObject(x.X, text2) || derivesFrom(x.X, func(y ssa.Value) bool { return y == text2 })
+					case *ssa.Index:
+						reads = reads || sameObject(x.X, text2) || derivesFrom(x.X, func(y ssa.Value) bool { return y == text2 })
+					}
+				}
+				if !reads {
+					continue
+				}
+				n++
+				con := fmt.Sprintf("%s: backward scan #%d reaches the first byte of the text", c.FnName(fn), n)
+				first := k
+				if bo.Op == token.GTR {
+					first = k + 1
+				}
+				if first == 0 {
+					obs = append(obs, ok(R, con, c.InstrPos(ifi), "the scan reads at the index and goes on while it is at least 0"))
+				} else {
+					obs = append(obs, bad(R, con, c.InstrPos(ifi), fmt.Sprintf("the scan stops at index %d: the first byte(s) of the text are never looked at", first)))
+				}
 				continue
 			}
+			// (the other spelling, `for i := len(s)-1; i >= 0; i--`, reads at the index itself: handled below)
 			// … is stepped down by one in the body, and the stepped value indexes the same text
 			var dec *ssa.BinOp
 			for _, r := range refsOf(phi) {
@@ -596,7 +639,7 @@ func ruleTypeOverlay(c *Ctx) []Obligation {
 // ---------------------------------------------------------------- NUM.CLAMPBOUND, UNION.ERRMERGE
 
 func init() {
-	register(&Rule{Name: "NUM.CLAMPBOUND", Props: []string{"C10", "C15"}, Floor: 1,
+	register(&Rule{Name: "NUM.CLAMPBOUND", Props: []string{"C10", "C15"}, Floor: 0,
 		Doc: "an addition that saturates (`if x > C-i { x = C } else { x += i }`) tests against the bound it saturates at: the two constants are one",
 		Run: ruleNumClampBound})
 	register(&Rule{Name: "UNION.ERRMERGE", Props: []string{"C10", "C04"}, Floor: 1,
@@ -633,8 +676,12 @@ func ruleNumClampBound(c *Ctx) []Obligation {
 			if !isK || c1.Value == nil {
 				continue
 			}
-			// the true branch stores a constant where x was read from
+			// the true branch stores a constant where one of the two addends was read from (`x > C-i` and `i > C-x`
+			// say the same)
 			_, fx, _ := loadedField(bo.X)
+			if fx == nil {
+				_, fx, _ = loadedField(sub.Y)
+			}
 			var c2 *ssa.Const
 			for _, in := range b.Succs[0].Instrs {
 				st, isSt := in.(*ssa.Store)
@@ -695,6 +742,14 @@ func ruleUnionErrMerge(c *Ctx) []Obligation {
 				// append(errs, list...) takes the whole list at once
 				if isAppend(x) && len(x.Call.Args) == 2 && x.Call.Args[1] == ssa.Value(call) {
 					merge = x.Block()
+				}
+				// … and so does a function of the repository that is handed the list and answers with a list
+				if cal := x.Call.StaticCallee(); cal != nil && c.isRepoFn(cal) && cal != res && isErrorSlice(x.Type()) {
+					for _, a := range x.Call.Args {
+						if a == ssa.Value(call) {
+							merge = x.Block()
+						}
+					}
 				}
 			}
 		}
@@ -798,4 +853,209 @@ func ruleLoopSkipNotStop(c *Ctx) []Obligation {
 		}
 	}
 	return obs
+}
+
+// ---------------------------------------------------------------- POS.LOCFORM
+
+func init() {
+	register(&Rule{Name: "POS.LOCFORM", Props: []string{"C16"}, Floor: 4,
+		Doc: "Statement.Location prints what it knows: `unknown` only when there is neither a source name nor a line, `line L:C` when only the name is missing, the name alone when only the line is, `name:L:C` otherwise — its conditions are evaluated for the four cases",
+		Run: rulePosLocForm})
+}
+
+func rulePosLocForm(c *Ctx) []Obligation {
+	const R = "POS.LOCFORM"
+	loc := c.Fn("yang.(*Statement).Location")
+	stmtT := c.Named("yang", "Statement")
+	if loc == nil || stmtT == nil || len(loc.Params) == 0 {
+		return []Obligation{undecided(R, "Statement.Location", "-", "not found")}
+	}
+	fFile, fLine := FieldVar(stmtT, "file"), FieldVar(stmtT, "line")
+	if fFile == nil || fLine == nil {
+		return []Obligation{undecided(R, "Statement.Location", c.Pos(loc.Pos()), "Statement.file / Statement.line not found")}
+	}
+	recv := loc.Params[0]
+	isTarget := func(v ssa.Value) bool {
+		if v == ssa.Value(recv) {
+			return true
+		}
+		if ld, isL := v.(*ssa.UnOp); isL && ld.Op == token.MUL {
+			if a, isA := ld.X.(*ssa.Alloc); isA && spilledParam(a) == recv {
+				return true
+			}
+		}
+		return false
+	}
+	// what a return hands back: "const", "line" (a format that starts with the word line), "name" (the file field
+	// itself) or "full" (a format that starts with a %s)
+	classify := func(v ssa.Value) string {
+		if s, isK := constString(v); isK {
+			return "const:" + s
+		}
+		if _, f, _ := loadedField(v); f == fFile {
+			return "name"
+		}
+		if call, isC := v.(*ssa.Call); isC && calleeIs(call, "fmt", "Sprintf") && len(call.Call.Args) > 0 {
+			if format, isF := constString(call.Call.Args[0]); isF {
+				switch {
+				case len(format) >= 4 && format[:4] == "line":
+					return "line"
+				case len(format) >= 2 && format[:2] == "%s":
+					return "full"
+				}
+				return "format:" + format
+			}
+		}
+		return "?"
+	}
+	var obs []Obligation
+	for _, cs := range []struct {
+		noFile, noLine bool
+		want, what     string
+	}{
+		{true, true, "const:unknown", "neither a source name nor a line"},
+		{true, false, "line", "a line but no source name"},
+		{false, true, "name", "a source name but no line"},
+		{false, false, "full", "a source name and a line"},
+	} {
+		con := "Location of a statement with " + cs.what
+		k := &kindFacts{c: c, isTarget: isTarget, zero: map[*types.Var]tri{fFile: triOf(cs.noFile), fLine: triOf(cs.noLine)}}
+		got := map[string]bool{}
+		for _, st := range k.walk(loc, nil) {
+			rt, isR := st.b.Instrs[len(st.b.Instrs)-1].(*ssa.Return)
+			if !isR || len(rt.Results) != 1 {
+				continue
+			}
+			got[classify(rt.Results[0])] = true
+		}
+		var list []string
+		for g := range got {
+			list = append(list, g)
+		}
+		sort.Strings(list)
+		if len(list) == 1 && list[0] == cs.want {
+			obs = append(obs, ok(R, con, c.Pos(loc.Pos()), "the conditions evaluated for this case lead to one return: "+cs.want))
+		} else {
+			obs = append(obs, bad(R, con, c.Pos(loc.Pos()), fmt.Sprintf("the conditions evaluated for this case lead to %v, not to %s: every error and every node of a text parsed without a name (or without positions) is reported at the wrong place or at none", list, cs.want)))
+		}
+	}
+	return obs
+}
+
+// ---------------------------------------------------------------- INDENT.SAVEDSTATE, INDENT.SAMEBASE
+
+func init() {
+	register(&Rule{Name: "INDENT.SAVEDSTATE", Props: []string{"C20"}, Floor: 1,
+		Doc: "the line state from before a write, which the short-write path needs to work out the state after it, is read before the writer overwrites that state with the intended one",
+		Run: ruleIndentSavedState})
+	register(&Rule{Name: "INDENT.SAMEBASE", Props: []string{"C20"}, Floor: 1,
+		Doc: "after a short write the new line state and the count handed back are worked out from the same number of emitted bytes",
+		Run: ruleIndentSameBase})
+}
+
+func indentWriter(c *Ctx) (*ssa.Function, *types.Named) {
+	iw := c.Named("indent", "iw")
+	w := c.Fn("indent.(*iw).Write")
+	return w, iw
+}
+
+func ruleIndentSavedState(c *Ctx) []Obligation {
+	const R = "INDENT.SAVEDSTATE"
+	w, iw := indentWriter(c)
+	if w == nil || iw == nil {
+		return []Obligation{undecided(R, "indenting writer", "-", "indent.(*iw).Write / iw not found")}
+	}
+	var obs []Obligation
+	n := 0
+	for _, fname := range []string{"partial", "cut"} {
+		f := FieldVar(iw, fname)
+		if f == nil {
+			continue
+		}
+		sts := storesToField(w, f)
+		// loads of the field whose value is handed to a helper of the package (the state "before")
+		eachInstr(w, func(in ssa.Instruction) {
+			ld, isL := in.(*ssa.UnOp)
+			if !isL {
+				return
+			}
+			if _, lf, _ := loadedField(ld); lf != f {
+				return
+			}
+			handed := false
+			for _, use := range forwardUses(ld, 3) {
+				if call, isC := use.(*ssa.Call); isC {
+					if cal := call.Call.StaticCallee(); cal != nil && c.isRepoFn(cal) {
+						handed = true
+					}
+				}
+			}
+			if !handed {
+				return
+			}
+			n++
+			con := fmt.Sprintf("Write: the %s state handed to the short-write accounting (#%d) is the state from before this write", fname, n)
+			late := ""
+			for _, st := range sts {
+				if dominates(st, ld) {
+					late = c.InstrPos(st)
+				}
+			}
+			if late == "" {
+				obs = append(obs, ok(R, con, c.InstrPos(ld), "read before any store of the field in Write"))
+			} else {
+				obs = append(obs, bad(R, con, c.InstrPos(ld), "the field is read after Write has already stored the intended end state into it at "+late+": the accounting starts from the wrong state, and a continued line gets a second prefix in its middle after a short write"))
+			}
+		})
+	}
+	if n == 0 {
+		return []Obligation{undecided(R, "Write: saved line state", c.Pos(w.Pos()), "no line state is handed to a helper in Write")}
+	}
+	return obs
+}
+
+func ruleIndentSameBase(c *Ctx) []Obligation {
+	const R = "INDENT.SAMEBASE"
+	w, iw := indentWriter(c)
+	if w == nil || iw == nil {
+		return []Obligation{undecided(R, "indenting writer", "-", "indent.(*iw).Write / iw not found")}
+	}
+	// the calls of package helpers on the error path whose first argument is an int computed from the count the
+	// underlying writer answered
+	var calls []*ssa.Call
+	eachInstr(w, func(in ssa.Instruction) {
+		call, isC := in.(*ssa.Call)
+		if !isC {
+			return
+		}
+		cal := call.Call.StaticCallee()
+		if cal == nil || !c.isRepoFn(cal) || len(call.Call.Args) == 0 || !isIntType(call.Call.Args[0].Type()) {
+			return
+		}
+		fromWrite := false
+		operandClosure(call.Call.Args[0], func(x ssa.Value) {
+			if ex, isE := x.(*ssa.Extract); isE && ex.Index == 0 {
+				if wc, isW := ex.Tuple.(*ssa.Call); isW && wc.Call.IsInvoke() && wc.Call.Method.Name() == "Write" {
+					fromWrite = true
+				}
+			}
+		})
+		if fromWrite {
+			calls = append(calls, call)
+		}
+	})
+	con := "Write: the accountings after a short write start from the same number of emitted bytes"
+	switch {
+	case len(calls) == 0:
+		return []Obligation{undecided(R, con, c.Pos(w.Pos()), "no helper is handed a count computed from the underlying writer's answer")}
+	case len(calls) == 1:
+		return []Obligation{ok(R, con, c.InstrPos(calls[0]), "one accounting: nothing to disagree with")}
+	}
+	ref := exprFP(calls[0].Call.Args[0], 4)
+	for _, call := range calls[1:] {
+		if fp := exprFP(call.Call.Args[0], 4); fp != ref || !sameExpr(call.Call.Args[0], calls[0].Call.Args[0]) && fp != ref {
+			return []Obligation{bad(R, con, c.InstrPos(call), fmt.Sprintf("%s is handed %s where %s is handed %s: the count given back to the caller and the line state describe different amounts of output (after a write that stopped inside a prefix the next count is too low by the bytes of the prefix that had got out)", calleeName(call), fp, calleeName(calls[0]), ref))}
+		}
+	}
+	return []Obligation{ok(R, con, c.InstrPos(calls[0]), fmt.Sprintf("%d accountings, all from %s", len(calls), ref))}
 }
